@@ -537,6 +537,12 @@ fn run_schedule(interval: usize, acts: &[Act], drv: Option<&mut Driver>, verbose
                             Ok(m2) => {
                                 let f2: Vec<EnrichmentState> = verif_frames(&m2).iter().map(|f| f.enrichment_state).collect();
                                 if f2 != states { out.oracle = Some(("reopen-differs".into(), format!("after reopen: {f2:?}, before: {states:?}"))); }
+                                // the enrichment QUEUE is part of what a close must persist: a task that left the queue in
+                                // memory and is back after the reopen would be processed a second time (seed C41-1)
+                                let q2 = verif_state(&m2).enrichment_queue;
+                                if out.oracle.is_none() && q2 != queue {
+                                    out.oracle = Some(("enrichment-queue-differs-after-reopen".into(), format!("queue before the close: {queue:?}, after reopen: {q2:?} (a completed task is queued again: its frame would be enriched twice)")));
+                                }
                                 out.branches.push("reopen");
                             }
                             Err(e) => { out.oracle = Some(("reopen-failed".into(), format!("{e}"))); }
